@@ -203,61 +203,6 @@ func runC04(c *eng.Ctx) {
 	c.Expect("ABS-liveness", 50)
 
 	// ---------------- (2) expiry predicate siblings
-	expiryFeatures := func(fn *ssa.Function) (string, token.Pos) {
-		set := map[string]bool{}
-		var pos token.Pos
-		for _, b := range fn.Blocks {
-			iff, ok := b.Instrs[len(b.Instrs)-1].(*ssa.If)
-			if !ok {
-				continue
-			}
-			// conditions that involve the clock
-			usesNow := eng.Mentions(iff.Cond, 8, func(v ssa.Value) bool {
-				if call, ok := v.(*ssa.Call); ok && eng.CalleeIs(call, "time.Now", "time.Time).Before", "time.Time).After") {
-					return true
-				}
-				if fv, ok := v.(*ssa.FreeVar); ok && fv.Name() == "now" {
-					return true
-				}
-				return eng.IsField(v, "VolumeFileScanner4Vacuum.now")
-			})
-			if !usesNow {
-				continue
-			}
-			pos = iff.Pos()
-			eng.Walk(iff.Cond, 10, func(v ssa.Value) bool {
-				switch f := eng.FieldSpec(v); f {
-				case "Needle.AppendAtNs", "Needle.LastModified", "Needle.Ttl", "Volume.Ttl", "SuperBlock.Ttl":
-					if f == "Volume.Ttl" || f == "SuperBlock.Ttl" {
-						f = "volume TTL"
-					}
-					set[f] = true
-				}
-				return true
-			})
-			// the TTL minutes used in the comparison may have been computed before the branch
-			eng.Walk(iff.Cond, 10, func(v ssa.Value) bool {
-				if call, ok := v.(*ssa.Call); ok && eng.CalleeIs(call, "needle.TTL).Minutes") {
-					eng.Walk(call.Call.Args[0], 6, func(w ssa.Value) bool {
-						switch f := eng.FieldSpec(w); f {
-						case "Needle.Ttl":
-							set[f] = true
-						case "Volume.Ttl", "SuperBlock.Ttl":
-							set["volume TTL"] = true
-						}
-						return true
-					})
-				}
-				return true
-			})
-		}
-		var ks []string
-		for k := range set {
-			ks = append(ks, k)
-		}
-		sort.Strings(ks)
-		return strings.Join(ks, "+"), pos
-	}
 	refExp, _ := expiryFeatures(reader)
 	for _, s := range []struct {
 		name string
@@ -343,4 +288,61 @@ func runC04(c *eng.Ctx) {
 				fmt.Sprintf("the offset field of an index entry is bytes [%d:%d] in this build; the code patches [%d:%d]", idSize, idSize+offSize, lo, hi))
 		}
 	}
+}
+
+// expiryFeatures names the needle/volume fields the clock-dependent (TTL expiry) branches of fn consult.
+func expiryFeatures(fn *ssa.Function) (string, token.Pos) {
+	set := map[string]bool{}
+	var pos token.Pos
+	for _, b := range fn.Blocks {
+		iff, ok := b.Instrs[len(b.Instrs)-1].(*ssa.If)
+		if !ok {
+			continue
+		}
+		// conditions that involve the clock
+		usesNow := eng.Mentions(iff.Cond, 8, func(v ssa.Value) bool {
+			if call, ok := v.(*ssa.Call); ok && eng.CalleeIs(call, "time.Now", "time.Time).Before", "time.Time).After") {
+				return true
+			}
+			if fv, ok := v.(*ssa.FreeVar); ok && fv.Name() == "now" {
+				return true
+			}
+			return eng.IsField(v, "VolumeFileScanner4Vacuum.now")
+		})
+		if !usesNow {
+			continue
+		}
+		pos = iff.Pos()
+		eng.Walk(iff.Cond, 10, func(v ssa.Value) bool {
+			switch f := eng.FieldSpec(v); f {
+			case "Needle.AppendAtNs", "Needle.LastModified", "Needle.Ttl", "Volume.Ttl", "SuperBlock.Ttl":
+				if f == "Volume.Ttl" || f == "SuperBlock.Ttl" {
+					f = "volume TTL"
+				}
+				set[f] = true
+			}
+			return true
+		})
+		// the TTL minutes used in the comparison may have been computed before the branch
+		eng.Walk(iff.Cond, 10, func(v ssa.Value) bool {
+			if call, ok := v.(*ssa.Call); ok && eng.CalleeIs(call, "needle.TTL).Minutes") {
+				eng.Walk(call.Call.Args[0], 6, func(w ssa.Value) bool {
+					switch f := eng.FieldSpec(w); f {
+					case "Needle.Ttl":
+						set[f] = true
+					case "Volume.Ttl", "SuperBlock.Ttl":
+						set["volume TTL"] = true
+					}
+					return true
+				})
+			}
+			return true
+		})
+	}
+	var ks []string
+	for k := range set {
+		ks = append(ks, k)
+	}
+	sort.Strings(ks)
+	return strings.Join(ks, "+"), pos
 }
